@@ -18,6 +18,12 @@
     change nothing, `neutral_kinds`, and are accepted where they arrive, by an invariant over the queues.)  The
     one-frame statements `fsm_sync`, `fsm_open`, `fsm_cross`, `closed_quiet`, `reset_swallows` say more about the
     states (mirror images);
+  * flow control fits together, for every schedule (`H2.PairCredit.data_never_overruns`): one window between two
+    endpoints — the sender's view, the receiver's generated `WindowManager`, DATA and SETTINGS acknowledgements in flight
+    one way, WINDOW_UPDATEs and INITIAL_WINDOW_SIZE changes the other way, queues of any length — a DATA frame the
+    sender was allowed to send is never refused by `window_consumed`, windows driven negative by a reduction included
+    (the empty frame in a negative window is where the proof needs D43's repair).  This composes the arithmetic of
+    C03 / C04 / C11; it is not yet a statement about two `H2Connection`s;
   * header blocks (`H2.Pair.emitted_block_is_accepted`): a block that passed the sender's normalisation and
     validation satisfies the receiver's rule book for the same block type;
   * chunking (`C21_chunks`, `C21_chunks_out`): how the bytes of one direction are cut into `receive_data` calls changes
@@ -34,6 +40,9 @@
   conversation generator (`harness/conversation.py`: only calls the application may make, every delivery and every
   event judged), with the known findings D25, D17b, D46, D47, D8, D39, D45, D22, D44 listed in known_findings.json.
 -/
+import H2.Proofs.PairCredit
+-- the credit equation of one window between two endpoints, everything in flight (arithmetic of windows.py + C03/C04/C11)
+-- @also H2.PairCredit.data_never_overruns
 import H2.Proofs.WireRoundTrip
 import H2.Proofs.PairHeaders
 import H2.Proofs.PairFsm
